@@ -32,6 +32,10 @@ def bdsOfSpec (start n : Nat) (f : List String) (bdlen : Nat) : List BD :=
       hasTs := tsAll && tsMiss ≠ some i, drs := if i + 1 = bdlen then drs else drs0, rootOk := rooterr ≠ some i }
 
 def aName (a : Nat) : String := s!"a{a}"
+/-- rollapp owner: `o0` = the creator of the rollapps (address 99999), `m<i>` = blocked module account 900+i,
+    `a<i>` an actor (declared, or "nobody" 100000+i) -/
+def ownName (a : Nat) : String :=
+  if a = 99999 then "o0" else if blockedAddr a then s!"m{a - 900}" else if 100000 ≤ a then s!"a{a - 100000}" else s!"a{a}"
 def oName : Option Nat → String
   | none => "-"
   | some a => aName a
@@ -60,7 +64,7 @@ def renderRa (r : Rollapp) : String :=
     match findByHeight r x with
     | some i => s!"{x}>{i}"
     | none => s!"{x}>-")
-  s!" | r{r.id} l={b2s r.launched} tph={r.tph} rev={revs} n={r.states.length} fin={r.lastFin} ev={r.evH} cd={r.cdStart} prop={oName r.proposer} succ={oName r.successor} st={sts} bh={bh}"
+  s!" | r{r.id} l={b2s r.launched} tph={r.tph} rev={revs} n={r.states.length} fin={r.lastFin} ev={r.evH} cd={r.cdStart} prop={oName r.proposer} succ={oName r.successor} own={ownName r.owner} st={sts} bh={bh}"
 
 def render (s : St) (res : String) (nActors : Nat) : String :=
   let ras := String.join (s.ras.map renderRa)
@@ -72,7 +76,10 @@ def render (s : St) (res : String) (nActors : Nat) : String :=
   let lev := joinWith "," (s.lev.map fun e => s!"{e.1}:r{e.2}")
   let nq := joinWith "," (s.nq.map fun e => s!"{e.1}:a{e.2}")
   let bal := joinWith "," ((List.range nActors).map fun a => toString (getBal s.bal a))
-  s!"res={res} h={s.h} t={s.t}{ras} | q={q} | sh={sh} | seqs={seqs} | lev={lev} | nq={nq} | mod={s.modBal} bal={bal}"
+  -- x/sequencer params in force: notice period, kick threshold, slash multiplier (raw 10^-18), slash minimum,
+  -- dishonor decrement per update, dishonor increment per liveness event
+  let sp := s!"{s.sqp.noticePeriod},{s.sqp.kickThr},{s.sqp.lsMul.raw},{s.sqp.lsAbs},{s.sqp.dishonorSU},{s.sqp.dishonorL}"
+  s!"res={res} h={s.h} t={s.t}{ras} | q={q} | sh={sh} | seqs={seqs} | lev={lev} | nq={nq} | mod={s.modBal} bal={bal} | sp={sp}"
 
 def updClass : Err → String
   | .unknownRollapp => "unknownRollapp"
@@ -109,6 +116,8 @@ def actorOf (d : DState) (s : String) : Nat :=
   -- `m<i>`: the i-th blocked module account (`m0` = the distribution module account) = address 900+i
   -- (`Core.blockedAddr`)
   if s.startsWith "m" then 900 + i else
+  -- `o0`: the creator (first owner) of every rollapp
+  if s.startsWith "o" then 99999 else
   if i < d.nActors then i else 100000 + i
 
 /-- result class of a rejected message other than `update`: the bank's refusal of the recipient
@@ -140,6 +149,19 @@ def parseOp (d : DState) (f : List String) : Option Op :=
       some (.fraud (kv f "auth" = "gov") (raOf d r) (kvN f "h") (kvN f "rev")
         ((optActor (kv f "punish")).map fun _ => actorOf d (kv f "punish"))
         ((optActor (kv f "rewardee")).map fun _ => actorOf d (kv f "rewardee")))
+  | "punish" :: a :: _ =>
+      -- the standalone governance PunishSequencerProposal: `punish a<i> rewardee=<a<k>|m<k>|-> auth=<gov|a<j>>`
+      some (.punish (kv f "auth" = "gov") (actorOf d a)
+        ((optActor (kv f "rewardee")).map fun _ => actorOf d (kv f "rewardee")))
+  | "xferowner" :: r :: _ =>
+      -- x/rollapp MsgTransferOwnership: `xferowner r<i> by=<actor> to=<actor> uc=<0|1>` (uc: the new owner's
+      -- bech32 string in upper case — the same address)
+      some (.transferOwner (actorOf d (kv f "by")) (raOf d r) (actorOf d (kv f "to")))
+  | "set_seq_params" :: _ =>
+      -- x/sequencer MsgUpdateParams: `set_seq_params notice=<ns> kick=<n> mul=<raw> abs=<n> dsu=<n> dl=<n> auth=<gov|a<j>>`
+      some (.setSeqParams (kv f "auth" = "gov")
+        { noticePeriod := kvN f "notice", kickThr := kvN f "kick", lsMul := ⟨(kvN f "mul" : Nat)⟩, lsAbs := kvN f "abs",
+          dishonorSU := kvN f "dsu", dishonorL := kvN f "dl" })
   | "obsolete" :: _ =>
       let v := kv f "v"
       some (.obsolete (kv f "auth" = "gov") (if v = "-" then [] else (v.splitOn ",").map nat!))
